@@ -26,26 +26,26 @@ var coreRW = LoadSpec{"core", []string{"./writer", "./reader", "./util", "./meta
 var serverAll = LoadSpec{"server", []string{".", "./store", "./msgpacker", "./metrics", "./model/request", "./model/meta", "./model"}}
 
 var props = map[string]PropSpec{
-	"C01": {[]LoadSpec{{"core", []string{"./reader", "./api", "./util"}}}},
-	"C02": {[]LoadSpec{{"core", []string{"./reader", "./util"}}}},
-	"C03": {[]LoadSpec{{"core", []string{"./reader"}}}},
-	"C04": {[]LoadSpec{{"core", []string{"./reader", "./model"}}}},
-	"C05": {[]LoadSpec{{"server", []string{".", "./store", "./msgpacker"}}, {"core", []string{"./writer"}}}},
-	"C06": {[]LoadSpec{{"core", []string{"./reader"}}, {"server", []string{".", "./store"}}}},
-	"C07": {[]LoadSpec{{"core", []string{"./writer"}}}},
-	"C08": {[]LoadSpec{{"core", []string{"./writer", "./util"}}}},
-	"C09": {[]LoadSpec{{"core", []string{"./writer", "./reader"}}}},
-	"C10": {[]LoadSpec{{"server", []string{"."}}, {"core", []string{"./util"}}}},
-	"C11": {[]LoadSpec{{"server", []string{".", "./store", "./metrics", "./model/meta"}}, {"core", []string{"./reader"}}}},
-	"C12": {[]LoadSpec{{"server", []string{"./store"}}, {"core", []string{"./meta"}}}},
-	"C13": {[]LoadSpec{{"core", []string{"./reader"}}}},
-	"C14": {[]LoadSpec{{"server", []string{"./msgpacker", "."}}}},
-	"C15": {[]LoadSpec{{"core", []string{"./reader", "./util", "./writer"}}}},
-	"C16": {[]LoadSpec{{"core", []string{"./util", "./reader"}}}},
-	"C17": {[]LoadSpec{{"core", []string{"./meta", "./api"}}}},
-	"C18": {[]LoadSpec{{"server", []string{".", "./model/request", "./model"}}}},
-	"C19": {[]LoadSpec{{"server", []string{"."}}, {"core", []string{"./util"}}}},
-	"C20": {[]LoadSpec{{"core", []string{"./writer", "./reader", "./api"}}}},
+	"C01": {[]LoadSpec{coreRW}},
+	"C02": {[]LoadSpec{coreRW}},
+	"C03": {[]LoadSpec{coreRW}},
+	"C04": {[]LoadSpec{coreRW}},
+	"C05": {[]LoadSpec{serverAll, coreRW}},
+	"C06": {[]LoadSpec{coreRW, serverAll}},
+	"C07": {[]LoadSpec{coreRW}},
+	"C08": {[]LoadSpec{coreRW}},
+	"C09": {[]LoadSpec{coreRW}},
+	"C10": {[]LoadSpec{serverAll, coreRW}},
+	"C11": {[]LoadSpec{serverAll, coreRW}},
+	"C12": {[]LoadSpec{serverAll, coreRW}},
+	"C13": {[]LoadSpec{coreRW}},
+	"C14": {[]LoadSpec{serverAll}},
+	"C15": {[]LoadSpec{coreRW}},
+	"C16": {[]LoadSpec{coreRW}},
+	"C17": {[]LoadSpec{coreRW}},
+	"C18": {[]LoadSpec{serverAll}},
+	"C19": {[]LoadSpec{serverAll, coreRW}},
+	"C20": {[]LoadSpec{coreRW}},
 }
 
 type KnownFinding struct {
